@@ -15,7 +15,7 @@ Fixpoint noref (n : str) (r : re) : bool :=
   | RRef m => negb (str_eqb n m)
   | RCat a b | RAlt a b => noref n a && noref n b
   | RStar a | RPlus a | ROpt a | RNcg a | RGrp _ a => noref n a
-  | REps | RStr _ | RAny | RCls _ _ => true
+  | REps | RStr _ | RAny _ | RCls _ _ => true
   end.
 
 Definition agree_except (n : str) (e1 e2 : env) : Prop :=
